@@ -50,7 +50,7 @@ impl Mon {
 }
 
 pub fn mac_menu() -> Vec<RMac> {
-    vec![RMac::Mi, RMac::Sha, RMac::Both, RMac::None, RMac::BadMi, RMac::BadSha, RMac::MiOtherPass, RMac::ShaOtherPass]
+    vec![RMac::Mi, RMac::Sha, RMac::Both, RMac::None, RMac::BadMi, RMac::BadSha, RMac::MiOtherPass, RMac::ShaOtherPass, RMac::FoldMi, RMac::FoldSha]
 }
 
 fn mac_name(m: RMac) -> &'static str {
@@ -63,6 +63,8 @@ fn mac_name(m: RMac) -> &'static str {
         RMac::BadSha => "corrupted-SHA256",
         RMac::MiOtherPass => "MI-under-another-password",
         RMac::ShaOtherPass => "SHA256-under-another-password",
+        RMac::FoldMi => "MI-wrong-in-two-cancelling-bytes",
+        RMac::FoldSha => "SHA256-inverted",
     }
 }
 
@@ -127,7 +129,7 @@ impl Monitor for Mon {
                 Some(a) => verifies_as(a),
                 None => verifies_as(Alg::Mi) || verifies_as(Alg::Sha),
             };
-            let wrong_or_absent = matches!(reply.mac, RMac::None | RMac::BadMi | RMac::BadSha | RMac::MiOtherPass | RMac::ShaOtherPass);
+            let wrong_or_absent = matches!(reply.mac, RMac::None | RMac::BadMi | RMac::BadSha | RMac::MiOtherPass | RMac::ShaOtherPass | RMac::FoldMi | RMac::FoldSha);
             match (&reply.class, to) {
                 (RClass::Success | RClass::Error(_), Target::Req(i)) if finals_before.get(*i).copied().unwrap_or(1) == 0 => {
                     let i = *i;
@@ -420,6 +422,30 @@ pub fn run(ctx: &RunCtx) -> i32 {
         r.sym("application-supplied-credentials");
         shared.merge(r);
     }
+    // many requests marked at once: N outstanding requests (40; thorough also 130), each gets a response under another
+    // password, then all time out: every one ends ProtectionViolated
+    {
+        let ns: Vec<usize> = if thorough { vec![40, 130] } else { vec![40] };
+        let mut r = Report::new();
+        for n in ns {
+            let cfg = Cfg { transport: Transport::Unreliable { rto_ms: 100, gran_ms: 1, rm: 2, rc: 1 }, mech: Mech::ShortTerm(Some(false)), fingerprint: false, max_tx: n, cred: 0, method: 1 };
+            let proto = Mon::narrow(n, &cfg);
+            let mut run = explore::start(&cfg, &apps, &proto);
+            let mut hist: Vec<Event> = vec![];
+            let mut evs: Vec<Event> = (0..n).map(|_| Event::Send { app: 0 }).collect();
+            evs.extend((0..n).map(|i| Event::Deliver { to: Target::Req(i), reply: Reply::plain(RClass::Success).with_mac(RMac::MiOtherPass) }));
+            evs.push(Event::AdvanceTo(300 * super::world::MS));
+            evs.push(Event::Timer);
+            for ev in evs {
+                hist.push(ev.clone());
+                let h = hist.clone();
+                explore::step(&mut run, &ev, Some((&mut r, &h)));
+                r.transitions += 1;
+            }
+        }
+        r.sym("many-marked-requests");
+        shared.merge(r);
+    }
     // run-to-completion with deviations on the default timing
     {
         let mut r = Report::new();
@@ -438,9 +464,9 @@ pub fn run(ctx: &RunCtx) -> i32 {
         rep,
         Finish {
             level: "model_checking",
-            rule: format!("breadth-first exploration of the real client to depth {} for 2 transports x algorithm {{to be learned, MI, SHA256}} over {{Send (<=2), Indicate, Timer, AdvanceTo(next point, +1 ms, beyond), Deliver(each awaiting request x {{valid MI, valid SHA256, both, none, corrupted MI, corrupted SHA256, MI / SHA256 under another password}} as success (and 4 of them as error response), Deliver(indication x the 8 kinds), exact duplicate of the last buffer}}; replies are built by the reference codec with independent HMACs; plus the same alphabet with three requests in flight (one level shallower), four requests in flight over a narrow alphabet (Send, Timer, AdvanceTo, one acceptable and one wrongly keyed reply per awaiting request) four levels deeper, requests and indications built from 4 application attribute lists that pre-populate USERNAME / MESSAGE-INTEGRITY / MESSAGE-INTEGRITY-SHA256 under the application's own key (depth 5 / 6, algorithm learned along the way; these six configurations also rotate through three credential sets - short ASCII, 70-byte user with 129-byte password, non-ASCII user with a password rewritten by OpaqueString enforcement - methods 0x001 / 0x080 / 0xFFF and fingerprint on / off), and deviation-bounded runs on the default timing. Monitor: agreed := configured, else learned at the first delivered response; acceptable responses are delivered, everything else is not; wrong / absent integrity => ProtectionViolated at once on reliable transport, ignored (Err, no events) on unreliable transport and ProtectionViolated instead of TimedOut at the end unless an acceptable response arrived; both-MACs and other-algorithm replies only need to be rejected; every request and indication sent carries USERNAME and integrity attributes that verify under the password (the agreed kind once agreed)", depth),
+            rule: format!("breadth-first exploration of the real client to depth {} for 2 transports x algorithm {{to be learned, MI, SHA256}} over {{Send (<=2), Indicate, Timer, AdvanceTo(next point, +1 ms, beyond), Deliver(each awaiting request x {{valid MI, valid SHA256, both, none, corrupted MI, corrupted SHA256, MI / SHA256 under another password, MI wrong in two bytes four apart with the same mask, SHA256 with every byte inverted}} as success (and 4 of them as error response), Deliver(indication x the 8 kinds), exact duplicate of the last buffer}}; replies are built by the reference codec with independent HMACs; plus the same alphabet with three requests in flight (one level shallower), four requests in flight over a narrow alphabet (Send, Timer, AdvanceTo, one acceptable and one wrongly keyed reply per awaiting request) four levels deeper, requests and indications built from 4 application attribute lists that pre-populate USERNAME / MESSAGE-INTEGRITY / MESSAGE-INTEGRITY-SHA256 under the application's own key (depth 5 / 6, algorithm learned along the way; these six configurations also rotate through three credential sets - short ASCII, 70-byte user with 129-byte password, non-ASCII user with a password rewritten by OpaqueString enforcement - methods 0x001 / 0x080 / 0xFFF and fingerprint on / off), a directed run with 40 (thorough 130) outstanding requests that each receive a wrongly keyed response and then time out together, and deviation-bounded runs on the default timing. Monitor: agreed := configured, else learned at the first delivered response; acceptable responses are delivered, everything else is not; wrong / absent integrity => ProtectionViolated at once on reliable transport, ignored (Err, no events) on unreliable transport and ProtectionViolated instead of TimedOut at the end unless an acceptable response arrived; both-MACs and other-algorithm replies only need to be rejected; every request and indication sent carries USERNAME and integrity attributes that verify under the password (the agreed kind once agreed)", depth),
             assumptions: vec!["single user / password pair".into(), "indications carrying both MACs are not judged (the statement speaks of responses)".into()],
-            required_symbols: vec!["bfs-configs", "delivered-authenticated", "ignored-unauthenticated", "protection-violated-on-reliable", "rejected-both-or-other-algorithm", "protection-violated-at-timeout", "plain-timeout", "outgoing-packet-authenticated", "deviation-runs", "Redeliver", "three-requests", "four-requests-narrow", "application-supplied-credentials"],
+            required_symbols: vec!["bfs-configs", "delivered-authenticated", "ignored-unauthenticated", "protection-violated-on-reliable", "rejected-both-or-other-algorithm", "protection-violated-at-timeout", "plain-timeout", "outgoing-packet-authenticated", "deviation-runs", "Redeliver", "three-requests", "four-requests-narrow", "application-supplied-credentials", "many-marked-requests"],
             min_outcomes: 8,
             exhaustive: true,
             bounds: json!({"depth": depth}),
